@@ -367,7 +367,22 @@ func (c *evalCtx) object(obj types.Object) *sv {
 func (c *evalCtx) resolveLocal(name string) *sv {
 	t := c.t
 	b := c.env.hdr
-	if name == "loopindex" {
+	if name == "loopidx" {
+		// number of completed iterations of a range loop: the hidden index phi starts at -1 and is incremented in the header
+		for _, ins := range b.Instrs {
+			if phi, ok := ins.(*ssa.Phi); ok && phi.Comment == "rangeindex" {
+				var base string
+				if c.env.phiOv != nil {
+					if ov, ok := c.env.phiOv[phi]; ok {
+						base = ov[0]
+					}
+				}
+				if base == "" {
+					base = t.vals(phi)[0]
+				}
+				return intSV(fmt.Sprintf("(+ %s 1)", base))
+			}
+		}
 		return nil
 	}
 	for _, ins := range b.Instrs {
@@ -925,6 +940,15 @@ func (c *evalCtx) call(x *ast.CallExpr) *sv {
 			return boolSV("true")
 		}
 		return boolSV("(and " + strings.Join(conj, " ") + ")")
+	case "sameheap":
+		// sameheap("sort"): the whole component heap of that sort is as in the pre-state
+		need(1)
+		bl, ok := args[0].(*ast.BasicLit)
+		if !ok {
+			c.fail("sameheap needs a sort name")
+		}
+		h := "H_" + unquote(bl.Value)
+		return boolSV(fmt.Sprintf("(= %s %s)", c.t.H(c.cur, h), c.t.H(c.old, h)))
 	case "sameobj":
 		// sameobj(x): every cell of the object x points to is unchanged since the pre-state (per heap sort of its type)
 		need(1)
